@@ -28,11 +28,15 @@ Local Open Scope Z_scope.
 KMAX = 6
 
 
-def gen_case(g, R, mode, tail):
+def gen_case(g, R, mode, tail, far=False):
     comps = []
     for _ in range(R):
         s = g.choice([Fr(1, 2), Fr(1), Fr(3, 2), Fr(2), Fr(2, 3)])
         mu = g.q()
+        if far:
+            # a mean that is huge compared with the standard deviation (|mu| / s = 1e4 .. 1e6): formulas that go through raw
+            # moments lose all digits of the variance there, the standardised ones do not
+            mu = g.choice([-1, 1]) * Fr(10 ** g.randint(4, 6)) * s + g.q()
         lim = 8 if tail else 3
         a = mu + s * Fr(g.randint(-2 * lim, 2 * lim - 1), 2)
         b = a + s * Fr(g.randint(1, 8), 2)
@@ -60,6 +64,12 @@ def gen_descs(g, tier):
                 d = gen_case(g, g.randint(1, 2), mode, False)
                 d["pdf"] = via
                 out.append(d)
+    for mode in ("two", "lower", "upper"):
+        for via in ("get_density", "direct_pdf"):
+            for _ in range(1 if q else 10):
+                d = gen_case(g, 1, mode, False, far=True)       # one component: the evaluation points are placed around ITS mean
+                d["pdf"] = via; d["far"] = True
+                out.append(d)
     return [C.J(d) for d in out]
 
 
@@ -67,7 +77,7 @@ def search_descs(g, failing, tier):
     return [C.J(gen_case(g, 1, m, False)) for m in ("two", "lower", "upper") for _ in range(3)]
 
 
-hist = lambda d: dict(mode=d["mode"], R=d["R"], tail=d["tail"], pdf=d["pdf"])
+hist = lambda d: dict(mode=d["mode"], R=d["R"], tail=d["tail"], pdf=d["pdf"], far=bool(d.get("far")))
 nontrivial = lambda d: True
 scenario = lambda d: "%s/%s/%s" % (d["mode"], "tail" if d["tail"] else "bulk", d["pdf"])
 
@@ -187,13 +197,20 @@ def run_impl(d):
     call = np.asarray(tp(xs), dtype=float)
     one = np.asarray(tp.integrate("1"))
     for r in range(R):
-        ob.add("comp%d.mean,var" % r, [mean[r], var[r]])
+        ob.add("comp%d.mean" % r, [mean[r]]); ob.add("comp%d.var" % r, [var[r]])     # separately: each on its own scale
         ob.add("comp%d.in_limits" % r, (call[r] != 0).astype(float), exact=True)
         Z = quad_k(r, 0)
-        lin.chk(fails, ["C20"], "truncated mean", "TruncatedGaussianPDF.get_mean", mean[r], quad_k(r, 1) / Z)
-        lin.chk(fails, ["C20"], "truncated variance", "TruncatedGaussianPDF.get_variance", var[r], quad_k(r, 2) / Z - (quad_k(r, 1) / Z) ** 2)
+        # central quadrature (raw moments would cancel catastrophically when |mu| >> s)
+        mu0 = float(comps[r]["mu"]); s0 = float(comps[r]["s"])
+        a0, b0 = max(A[r], mu0 - 40 * s0), min(B[r], mu0 + 40 * s0)
+        c1 = sint.quad(lambda x: (x - mu0) * dens(r, x), a0, b0, epsabs=1e-13, epsrel=1e-13, limit=200)[0] / Z
+        c2 = sint.quad(lambda x: (x - mu0) ** 2 * dens(r, x), a0, b0, epsabs=1e-13, epsrel=1e-13, limit=200)[0] / Z
+        lin.chk(fails, ["C20"], "truncated mean", "TruncatedGaussianPDF.get_mean", mean[r] - mu0, c1)
+        lin.chk(fails, ["C20"], "truncated variance", "TruncatedGaussianPDF.get_variance", var[r], c2 - c1 ** 2)
         lin.chk(fails, ["C20"], "truncated standard deviation", "TruncatedGaussianPDF.get_std", np.asarray(tp.get_std())[r, 0] ** 2, var[r])
         expc = np.array([dens(r, float(x)) / Z if inl[r][i] else 0.0 for i, x in enumerate(d["xs"])])
-        lin.chk(fails, ["C20"], "density = u(x) / truncated mass inside, zero outside (%s)" % d["pdf"], "TruncatedGaussianPDF.__call__", call[r], expc)
+        if not d.get("far"):
+            # (far means: the natural-parameter form -x'Lambda x/2 + nu x + ln beta cancels ~12 digits in float64 -- rounding, not modelled)
+            lin.chk(fails, ["C20"], "density = u(x) / truncated mass inside, zero outside (%s)" % d["pdf"], "TruncatedGaussianPDF.__call__", call[r], expc)
     lin.chk(fails, ["C20"], "normalised truncated density integrates to one", "TruncatedGaussianPDF.integrate", one, np.ones(R))
     return ob, fails
